@@ -26,10 +26,13 @@ def setup(J):
         add("g2", 1, 1, "cmd", two_wf=True, id="C12-two-workflows-g2-cmd")
         if not q:
             add("g14", 1, 2); add("g4", 2, 2); add("g6", 1, 2); add("g3", 2, 2); add("g14", 2, 2, mode="delay", delay=2, id="C12-g14-i2-m2-delay"); add("g12", 3, 2, mode="delay", delay=2, id="C12-g12-i3-delay")
+        # a streaming out-port (real FIFO, see C17): the consumer gets the IP while the producing task is still running
+        jobs.append({"id": "C12-stream-n1", "prop": "C12", "kind": "stream", "mode": "delay", "delay": 1, "budget": J.budget(tier, 30, 200), "oracles": [], "events_dep": False, "force_all": -1, "race": True,
+                     "args": {"n": "1", "size": "1", "max": "2", "only_classes": "none"}})
         # components with their own sender goroutines
         for comp, lens in (("filecombinator", "1,2"), ("paramcombinator", "2,1"), ("filecombinator", "1,1,1")):
             jobs.append(J.with_delay_fallback({"id": f"C12-{comp}-l{lens.replace(',', '')}", "prop": "C12", "kind": "comp", "mode": "dpor", "budget": J.budget(tier, 30, 300), "oracles": [], "events_dep": False, "force_all": -1, "race": True,
                                                "args": {"comp": comp, "lens": lens, "buf": "1"}}, 1))
         return {"level": "model_checking", "race": True, "stages": [lambda ctx, prev: jobs],
-                "rule": "race-instrumented build (every map operation and every access to a struct field that is assigned after construction is a visible memory access): fan-out, fan-in, multi-core, tagging, join and combinator scenarios under every Mazurkiewicz trace (delay bound where not closed); vector-clock happens-before monitor built from synchronisation edges only (spawn, send->recv, k-th recv -> (k+cap)-th send, close -> recv-closed, unlock -> lock, Done -> Wait): two conflicting accesses not ordered by it in ANY explored execution = data race, reported with both functions",
+                "rule": "race-instrumented build (every map operation and every access to a struct field that is assigned after construction is a visible memory access): fan-out, fan-in, multi-core, tagging, join, streaming and combinator scenarios under every Mazurkiewicz trace (delay bound where not closed); vector-clock happens-before monitor built from synchronisation edges only (spawn, send->recv, k-th recv -> (k+cap)-th send, close -> recv-closed, unlock -> lock, Done -> Wait): two conflicting accesses not ordered by it in ANY explored execution = data race, reported with both functions",
                 "assumptions": J.BASE_ASSUMPTIONS + ["instrumented accesses: maps, mutable struct fields reached through a pointer-typed identifier, package-level variables assigned in a function body (checked against happens-before without being scheduling points); slice elements and right operands of && / || are not instrumented", "accesses in loop conditions are not instrumented"]}
